@@ -83,4 +83,3 @@ func VerifC06_ProcessFee() {
 	}
 	symx.Reach("end")
 }
-
